@@ -8,16 +8,18 @@
     repository mirrors two defects, so the round-trip invariant is checked through
     (a) `Collect` (TLC prints every failing row / numeral instead of stopping) and
     (b) `Characterization` (the failing ones are exactly a stated class); the variants
-    with the proposed fixes are checked against the plain round-trip invariant.
- 2. Every row / numeral TLC enumerated (at the emission bounds) is pushed through the
-    real dump() -> line.unframe() -> load(create_line_parser()).
+    with the proposed fixes are explored in the same runs against the plain round-trip
+    invariants (`RoundTrip`, `Correct`).
+ 2. Every row / numeral TLC enumerated (`EmitRow`, `EmitNum`) is pushed through the
+    real dump() -> line.unframe() -> load(create_line_parser()); numerals also
+    directly through parse_decimal (compared with the model, informational).
  3. Random executions: 1..8 typed columns, all separators of the property, floats
     printed by str(), 64-bit ints, strings with separator / quote / escape / blank at
     any position; files crossing the 64 KiB read boundary through dump_to_file /
     load_from_file(encoding='utf-8').
  4. Every recorded execution is validated by TLC against CsvTrace.tla, which
-    recomputes Dump / ParseLine of the specification on the real data and gives the
-    verdict per field.
+    recomputes Dump / ParseLine of the specification on the real data (insync) and
+    gives the verdict per field from the observations of the real code.
 """
 import math
 import os
@@ -93,13 +95,12 @@ def run_rows(kinds, rows, sep, esc, form=0):
         todo = rows[k:]
         parser = csv.create_line_parser(dtype=dtype, separator=sep, escapechar=esc)
         try:
-            with C.quiet_stdout():
-                rx.from_([X(*r) for r in todo]).pipe(
-                    csv.dump(separator=sep, escapechar=esc),
-                    ops.do_action(lines.append),
-                    line.unframe(),
-                    csv.load(parser),
-                ).subscribe(on_next=got.append, on_error=err.append)
+            rx.from_([X(*r) for r in todo]).pipe(
+                csv.dump(separator=sep, escapechar=esc),
+                ops.do_action(lines.append),
+                line.unframe(),
+                csv.load(parser),
+            ).subscribe(on_next=got.append, on_error=err.append)
         except Exception as e:  # an exception escaping the pipeline is an error of the stream
             err.append(e)
 
@@ -137,14 +138,10 @@ def real_merged(text, ncols, sep, esc):
     parts = text.split(sep)
     if len(parts) == ncols:
         return {'k': 'na'}
-    import logging
-    logging.disable(logging.CRITICAL)
     try:
         return {'k': 'ok', 'v': [enc(p) for p in fn(parts, sep, esc)]}
     except Exception:
         return {'k': 'err'}
-    finally:
-        logging.disable(logging.NOTSET)
 
 
 def tag_orig(kind, v):
@@ -206,10 +203,9 @@ def file_trace(kinds, rows, sep, esc):
     with C.scratch('rxsci-verif.c18.') as d:
         path = os.path.join(d, 'rows.csv')
         werr = []
-        with C.quiet_stdout():
-            rx.from_([X(*r) for r in rows]).pipe(
-                csv.dump_to_file(path, separator=sep, escapechar=esc, encoding='utf-8'),
-            ).subscribe(on_error=werr.append)
+        rx.from_([X(*r) for r in rows]).pipe(
+            csv.dump_to_file(path, separator=sep, escapechar=esc, encoding='utf-8'),
+        ).subscribe(on_error=werr.append)
         if werr:
             raise C.MachineryError('dump_to_file failed: %r' % (werr[0],))
         with open(path, 'rb') as f:
@@ -217,9 +213,8 @@ def file_trace(kinds, rows, sep, esc):
         got, err = [], []
         parser = csv.create_line_parser(dtype=dtype, separator=sep, escapechar=esc)
         try:
-            with C.quiet_stdout():
-                csv.load_from_file(path, parser, encoding='utf-8').subscribe(
-                    on_next=got.append, on_error=err.append)
+            csv.load_from_file(path, parser, encoding='utf-8').subscribe(
+                on_next=got.append, on_error=err.append)
         except Exception as e:
             err.append(e)
     lines = text.split('\n')[1:]
@@ -326,11 +321,13 @@ TRACE_CONST = dict(Symbols=set(), RawCodes=set(), SepCodes=set(), Escs=set(), Qu
                    MaxFields=0, MaxLen=0, Variants=set(), Emit=False)
 
 
-def validate(traces, variant, rows_per_run=3000, par=4):
+def validate(traces, variant, rows_per_run=3000, par=4, invariants=True):
     """CsvTrace.tla on batches.  Returns (verdicts, stats); verdicts[i] =
-    ('ACCEPT', steps, insync) | ('REJECT', n, [(row, col, clause), ...])."""
+    ('ACCEPT', steps, insync) | ('REJECT', n, [(row, col, clause), ...]).
+    invariants: also check on the real data that the model fails the round trip
+    exactly on the characterized class (not needed for rows TLC enumerated itself)."""
     cfg = C.cfg(spec='TraceSpec', constants=TRACE_CONST,
-                invariants=['TraceCharacterization', 'TraceRoundTrip'])
+                invariants=['TraceCharacterization', 'TraceRoundTrip'] if invariants else [])
     stats = {'states': 0, 'transitions': 0, 'wall_s': 0.0, 'tlc_runs': 0}
     verdicts = [None] * len(traces)
     jobs = []
@@ -513,17 +510,26 @@ def do_replay(path):
         new = mem_trace(tr['schema'], rows, sep, esc, op=tr['op'])
     merge, _ = probe_variants()
     v, _ = validate([new], merge)
-    print('replay verdict:', v[0])
-    print('config:', w['config'], 'schema:', tr['schema'])
-    for j, r in enumerate(rows[:3]):
-        print('row %d: %r' % (j, r))
-        print('  dumped: %r' % dec(new['rows'][j]['line']) if j < len(new['rows']) else '  (not observed)')
-        if j < len(new['rows']):
-            p = new['rows'][j]['parsed']
-            print('  parsed:', p['v'] if p['k'] == 'err' else
-                  [dec(x['v']) if x['k'] in 'sif' else x.get('v') for x in p['v']])
-    if v[0][0] == 'REJECT':
-        print('VIOLATION property=%s replay=%s clause=%s' % (PROP, path, v[0][2][0][2]))
+    # re-judge the witness row only (a file contains many other rows, some of which
+    # may hit known findings)
+    j = w.get('row_index', 0) if tr['op'] == 'file' and 'row_index' in w else None
+    bad = [] if v[0][0] == 'ACCEPT' else [b for b in v[0][2] if j is None or b[0] in (0, j + 1)]
+    if j is not None and j >= len(new['rows']):
+        bad = [b for b in v[0][2] if b[0] == len(new['rows'])] if v[0][0] == 'REJECT' else []
+    print('replay verdict:', ('REJECT', bad) if bad else 'ACCEPT', '(insync: %s)' % (v[0][2] if v[0][0] == 'ACCEPT' else '-'))
+    print('config:', w['config'], 'schema:', ''.join(tr['schema']), 'via', tr['op'])
+    show = [j] if j is not None else range(min(3, len(rows)))
+    for k in show:
+        if k >= len(new['rows']):
+            print('row %d was not observed: the stream ended before it' % k)
+            continue
+        print('row %d: %s' % (k, repr(rows[k])[:400]))
+        print('  dumped: %s' % repr(dec(new['rows'][k]['line']))[:400])
+        p = new['rows'][k]['parsed']
+        print('  parsed: %s' % repr(p['v'] if p['k'] == 'err' else
+                                    [dec(x['v']) if x['k'] in 'sif' else x.get('v') for x in p['v']])[:400])
+    if bad:
+        print('VIOLATION property=%s replay=%s clause=%s' % (PROP, path, bad[0][2]))
         return 1
     return 0
 
@@ -543,16 +549,56 @@ def main(tier, replay):
     if replay:
         return do_replay(replay)
     C.use_repo()
+    import logging
+    logging.disable(logging.CRITICAL)     # the csv module logs every parse error
     V = C.Verdict(PROP, tier)
     rng = random.Random(C.seed() * 7919 + 18)
     thorough = tier == 'thorough'
     merge_variant, number_variant = probe_variants()
+    per_run = 9000 if thorough else 4000
+
+    # 3. random executions (recorded and validated while TLC explores the models) ---------
+    def random_part():
+        rng = random.Random(C.seed() * 7919 + 19)
+        traces = []
+        nrand = 2500 if thorough else 350
+        for n in range(nrand):
+            sep = rng.choice(SEPS)
+            esc = rng.choice(ESCS)
+            clean = rng.random() < 0.4
+            kinds, rows = rnd_rows(rng, sep, esc, clean, rng.choice([1, 1, 2, 3, 5]))
+            traces.append(mem_trace(kinds, rows, sep, esc, form=n % 2))
+        nfiles = 6 if thorough else 2
+        file_infos = []
+        for n in range(nfiles):
+            sep = SEPS[n % len(SEPS)] if n else ','
+            esc = ESCS[n % len(ESCS)]
+            clean = n % 3 != 2      # every third file: any string (ends at the first known defect)
+            kinds = ['sifbs', 'ssf', 'sis', 'fsbi'][n % 4]
+            target = rng.choice([70000, 140000]) if n > 1 else 70000
+            rows = []
+            while True:      # grow until the real file is longer than the target
+                _, rr = rnd_rows(rng, sep, esc, clean, 100, kinds, long=True)
+                rows += rr
+                if sum(sum(len(str(v)) + 3 for v in r) for r in rows) < target:
+                    continue
+                t = file_trace(kinds, rows, sep, esc)
+                if t['file']['chars'] >= target:
+                    break
+            t['profile'] = 'no-trailing-escape' if clean else 'any'
+            file_infos.append(dict(t['file'], sep=sep, esc=esc, schema=kinds, profile=t['profile']))
+            traces.append(t)
+        v, st = validate(traces, merge_variant, rows_per_run=per_run)
+        return traces, v, st, nrand, file_infos
+    import concurrent.futures as cf
+    bg = cf.ThreadPoolExecutor(max_workers=1)
+    random_future = bg.submit(random_part)
 
     # 1. exhaustive model checking + enumeration for the binding -----------------------
     jobs = []   # (module, constants, invariants, role)
     # one run explores both transcriptions: "repo" (Characterization, Collect, EmitRow) and
     # the proposed fix (RoundTrip)
-    inv_csv = ['TypeOK', 'SplitJoin', 'Collect', 'Characterization', 'RoundTrip', 'EmitRow']
+    inv_csv = ['TypeOK', 'SplitJoin', 'EscapeInverse', 'Collect', 'Characterization', 'RoundTrip', 'EmitRow']
     for (nf, ml) in ([(3, 2), (2, 3)] if thorough else [(2, 2), (3, 1)]):
         jobs.append(('Csv', csv_const(ALPHA, ['7', '-7'], [',', ',,'], nf, ml, ['repo', 'parity'], True),
                      inv_csv, 'enumerate'))
@@ -598,6 +644,15 @@ def main(tier, replay):
         uniq.setdefault(key(b), b)
     model_rows = list(uniq.values())
     n_enum = len(model_rows)
+    cap = 200000 if thorough else 4000    # i.e. every row at the present bounds
+    if len(model_rows) > cap:
+        # every row the model fails on, every row of up to two fields; the three-field rows
+        # that pass in the model are sampled
+        failing = {C.json.dumps([f[2], f[3], [1 if x['k'] == 's' else 0 for x in f[4]],
+                                 [x['v'] for x in f[4]]]) for f in model_fail_rows}
+        keep = [b for b in model_rows if len(b[3]) < 3 or key(b) in failing]
+        rest = [b for b in model_rows if not (len(b[3]) < 3 or key(b) in failing)]
+        model_rows = keep + rng.sample(rest, max(0, min(len(rest), cap - len(keep))))
     groups = {}
     for b in model_rows:
         _, sp, es, isstr, texts = b
@@ -617,8 +672,6 @@ def main(tier, replay):
     num_sync = {'sync': 0, 'rounding': 0, 'out': 0, 'not-compared': 0}
     num_out = []
     canon_f, canon_i = [], []
-    import logging
-    logging.disable(logging.CRITICAL)
     for b in model_nums:
         text = dec(b[1])
         m = b[2]
@@ -654,7 +707,6 @@ def main(tier, replay):
         else:
             num_sync['out'] += 1
             num_out.append((text, repr(real), repr(exp)))
-    logging.disable(logging.NOTSET)
     n_canon = {'float': len(canon_f), 'int': len(canon_i)}
     if not thorough:    # ints are a sample in the quick tier; every float numeral is replayed
         canon_i = rng.sample(canon_i, min(len(canon_i), 300))
@@ -665,38 +717,17 @@ def main(tier, replay):
     n_replayed = len(traces)
     V.phase('replay of %d enumerated rows, %d numerals' % (n_enum_rows, len(model_nums)))
 
-    # 3. random executions ----------------------------------------------------------------
-    nrand = 2500 if thorough else 350
-    for n in range(nrand):
-        sep = rng.choice(SEPS)
-        esc = rng.choice(ESCS)
-        clean = rng.random() < 0.4
-        kinds, rows = rnd_rows(rng, sep, esc, clean, rng.choice([1, 1, 2, 3, 5]))
-        traces.append(mem_trace(kinds, rows, sep, esc, form=n % 2))
-    nfiles = 6 if thorough else 2
-    file_infos = []
-    for n in range(nfiles):
-        sep = SEPS[n % len(SEPS)] if n else ','
-        esc = ESCS[n % len(ESCS)]
-        clean = n % 3 != 2          # every third file: any string (ends at the first known defect)
-        kinds = ['sifbs', 'ssf', 'sis', 'fsbi'][n % 4]
-        target = rng.choice([70000, 140000]) if n > 1 else 70000
-        rows = []
-        while True:      # grow until the real file is longer than the target
-            _, rr = rnd_rows(rng, sep, esc, clean, 100, kinds, long=True)
-            rows += rr
-            if sum(sum(len(str(v)) + 3 for v in r) for r in rows) < target:
-                continue
-            t = file_trace(kinds, rows, sep, esc)
-            if t['file']['chars'] >= target:
-                break
-        t['profile'] = 'no-trailing-escape' if clean else 'any'
-        file_infos.append(dict(t['file'], sep=sep, esc=esc, schema=kinds, profile=t['profile']))
-        traces.append(t)
-    V.phase('random executions')
-
     # 4. validation by TLC ----------------------------------------------------------------
-    verdicts, tstats = validate(traces, merge_variant)
+    enum_tr = [t for t in traces if t['op'] == 'enum-row']
+    num_tr = [t for t in traces if t['op'] != 'enum-row']
+    (v1, st1), (v2, st2) = C.par([
+        lambda: validate(enum_tr, merge_variant, rows_per_run=per_run, invariants=False),
+        lambda: validate(num_tr, merge_variant, rows_per_run=per_run)])
+    rnd_tr, v3, st3, nrand, file_infos = random_future.result()
+    bg.shutdown()
+    traces = enum_tr + num_tr + rnd_tr
+    verdicts = v1 + v2 + v3
+    tstats = {k: st1[k] + st2[k] + st3[k] for k in st1}
     out_of_sync = 0
     nontrivial = set()
     n_rows = 0
@@ -736,7 +767,7 @@ def main(tier, replay):
     if num_sync['out']:
         V.note('impl_model_in_sync=false: parse_decimal differs from the model on %d numerals, '
                'e.g. %r' % (num_sync['out'], num_out[:3]))
-    if lenient:
+    if lenient and number_variant == 'repo':
         V.note('parse_decimal (model) gives a value to %d of %d ill-formed numerals that float() '
                'rejects, e.g. %s -> %s; not constrained by C18 (str() never prints them)'
                % (len(lenient), len(model_nums), dec(lenient[0][2]),
@@ -756,7 +787,8 @@ def main(tier, replay):
         'model_checking_runs': [{'module': m, 'role': role,
                                  'constants': {k: str(v) for k, v in c.items()}, **r.summary()}
                                 for (m, c, r, role) in mc_stats],
-        'model_rows_enumerated_and_replayed': n_enum,
+        'model_rows_enumerated': n_enum,
+        'model_rows_replayed': n_enum_rows,
         'model_rows_failing_roundtrip': {'trailing-esc': len(model_fail_rows), 'other': 0},
         'model_numerals_enumerated': len(model_nums),
         'model_numerals_failing': {'sign': len(model_fail_nums), 'other': 0,
